@@ -427,26 +427,24 @@ Proof. destruct o; simpl; [apply parse_uint_bound | intros H; injection H as <-;
 
 Lemma parse_valid_wf s v : parse s = Some v -> valid v = true /\ wf v = true.
 Proof.
-  unfold parse.
-  set (s1 := match s with [] => s | b :: t => if beqb b c_v then t else s end).
-  destruct (span_digits s1) as [mj r1]. destruct mj as [|m0 mj]; [discriminate|].
+  unfold parse, parse_body.
+  destruct (span_digits (strip_v s)) as [mj r1]. destruct mj as [|m0 mj]; [discriminate|].
   destruct (opt_dot_num r1) as [mn r2]. destruct (opt_dot_num r2) as [pt r3].
-  match goal with |- match ?T with _ => _ end = _ -> _ => set (tail := T) end.
-  destruct tail as [[p m]|] eqn:ET; [|discriminate].
+  destruct (parse_tail r3) as [[p m]|] eqn:ET; [|discriminate].
   destruct (parse_uint (m0 :: mj)) as [a|] eqn:Ea; [|discriminate].
   destruct (num_or_zero mn) as [b|] eqn:Eb; [|discriminate].
   destruct (num_or_zero pt) as [c|] eqn:Ec; [|discriminate].
   destruct (match p with [] => true | _ => pre_ok p end) eqn:EP; [|discriminate].
   intros H. injection H as <-.
   assert (Hp : p = [] \/ (p <> [] /\ idents_ok p = true)).
-  { subst tail. destruct r3 as [|b0 t]; [injection ET as <- <-; auto|].
+  { unfold parse_tail in ET. destruct r3 as [|b0 t]; [injection ET as <- <-; auto|].
     destruct (beqb b0 c_dash).
     - destruct (break_on c_plus t) as [p' m']. destruct (idents_ok p') eqn:I; [|discriminate].
       destruct p' as [|q p']; [discriminate|].
       destruct m' as [m'|]; [destruct (idents_ok m'); [|discriminate]|]; injection ET as <- <-; right; split; auto; discriminate.
     - destruct (beqb b0 c_plus); [|discriminate]. destruct (idents_ok t); [|discriminate]. injection ET as <- <-. auto. }
   assert (Hm : m = [] \/ idents_ok m = true).
-  { subst tail. destruct r3 as [|b0 t]; [injection ET as <- <-; auto|].
+  { unfold parse_tail in ET. destruct r3 as [|b0 t]; [injection ET as <- <-; auto|].
     destruct (beqb b0 c_dash).
     - destruct (break_on c_plus t) as [p' m']. destruct (idents_ok p'); [|discriminate].
       destruct m' as [m'|]; [destruct (idents_ok m') eqn:I; [|discriminate]|]; injection ET as <- <-; auto.
@@ -458,7 +456,7 @@ Proof.
   - simpl. split; [|reflexivity]. destruct Hm as [->|Hm]; [reflexivity|]. destruct m; [reflexivity | exact Hm].
   - destruct p as [|q p]; [congruence|]. rewrite Hi, EP. simpl. split.
     + destruct Hm as [->|Hm]; [reflexivity|]. destruct m; [reflexivity | exact Hm].
-    + apply pre_ok_wf; assumption.
+    + apply (pre_ok_wf (q :: p)); assumption.
 Qed.
 
 Lemma parse_wf s v : parse s = Some v -> wf v = true.
@@ -468,3 +466,153 @@ Proof. intros H. apply (parse_valid_wf s v H). Qed.
 
 Lemma v0_wf : wf v0 = true.
 Proof. reflexivity. Qed.
+
+(* ---------- print / parse round trip ---------- *)
+Definition starts_nondigit (r : str) : Prop :=
+  match r with [] => True | b :: _ => is_digit b = false end.
+
+Lemma span_digits_app d r : all_digits d = true -> starts_nondigit r -> span_digits (d ++ r) = (d, r).
+Proof.
+  unfold all_digits. induction d as [|b d IH]; simpl; intros D R.
+  - destruct r as [|c r]; [reflexivity|]. simpl in R |- *. rewrite R. reflexivity.
+  - apply andb_true_iff in D as [Db Dd]. rewrite Db, (IH Dd R). reflexivity.
+Qed.
+
+Lemma opt_dot_num_app d r : all_digits d = true -> d <> [] -> starts_nondigit r ->
+  opt_dot_num (c_dot :: d ++ r) = (Some d, r).
+Proof.
+  intros D Hne R. unfold opt_dot_num. change (beqb c_dot c_dot) with true. cbv iota.
+  rewrite (span_digits_app d r D R). destruct d; [congruence | reflexivity].
+Qed.
+
+Lemma forallb_split_chars f c s :
+  forallb (forallb f) (split_on c s) = true -> forallb (fun b => beqb b c || f b) s = true.
+Proof.
+  induction s as [|b t IH]; simpl; [reflexivity|].
+  destruct (beqb b c) eqn:E; simpl.
+  - exact IH.
+  - pose proof (split_on_nonnil c t) as Hn. destruct (split_on c t) as [|p ps]; [contradiction|].
+    simpl in IH |- *. intros H. apply andb_true_iff in H as [H1 H2]. apply andb_true_iff in H1 as [Hb Hp].
+    rewrite Hb. simpl. apply IH. rewrite Hp, H2. reflexivity.
+Qed.
+
+Lemma ident_ok_allowed x : ident_ok x = true -> forallb is_allowed x = true.
+Proof. destruct x; [discriminate | exact (fun H => H)]. Qed.
+
+Lemma idents_ok_chars s : idents_ok s = true -> forallb (fun b => beqb b c_dot || is_allowed b) s = true.
+Proof.
+  unfold idents_ok. intros H. apply forallb_split_chars.
+  revert H. generalize (split_on c_dot s). induction l as [|x l IH]; simpl; [reflexivity|].
+  intros H. apply andb_true_iff in H as [H1 H2]. rewrite (ident_ok_allowed _ H1), (IH H2). reflexivity.
+Qed.
+
+Lemma idents_ok_no_plus s : idents_ok s = true -> forallb (fun b => negb (beqb b c_plus)) s = true.
+Proof.
+  intros H. apply idents_ok_chars in H. rewrite forallb_forall in *. intros b Hb. specialize (H b Hb).
+  destruct (beqb b c_plus) eqn:E; [|reflexivity]. apply beqb_eq in E; subst b. vm_compute in H. discriminate.
+Qed.
+
+Lemma break_on_none c p : forallb (fun b => negb (beqb b c)) p = true -> break_on c p = (p, None).
+Proof.
+  induction p as [|b p IH]; simpl; [reflexivity|]. intros H. apply andb_true_iff in H as [Hb Hp].
+  destruct (beqb b c); [discriminate|]. rewrite (IH Hp). reflexivity.
+Qed.
+Lemma break_on_some c p m : forallb (fun b => negb (beqb b c)) p = true -> break_on c (p ++ c :: m) = (p, Some m).
+Proof.
+  induction p as [|b p IH]; simpl; intros H.
+  - rewrite (proj2 (beqb_eq c c) eq_refl). reflexivity.
+  - apply andb_true_iff in H as [Hb Hp]. destruct (beqb b c); [discriminate|]. rewrite (IH Hp). reflexivity.
+Qed.
+
+Definition pre_str (v : version) : str := match pre v with [] => [] | p => c_dash :: p end.
+Definition meta_str (v : version) : str := match meta v with [] => [] | m => c_plus :: m end.
+
+Lemma parse_tail_print v : valid v = true -> parse_tail (pre_str v ++ meta_str v) = Some (pre v, meta v).
+Proof.
+  unfold valid, pre_str, meta_str. intros V.
+  apply andb_true_iff in V as [V Vm]. apply andb_true_iff in V as [_ Vp].
+  destruct (pre v) as [|q p] eqn:Ep, (meta v) as [|n m] eqn:Em.
+  - reflexivity.
+  - simpl. change (beqb c_plus c_dash) with false. change (beqb c_plus c_plus) with true. cbv iota.
+    rewrite Vm. reflexivity.
+  - apply andb_true_iff in Vp as [Ip _]. rewrite app_nil_r. unfold parse_tail.
+    change (beqb c_dash c_dash) with true. cbv iota.
+    rewrite (break_on_none c_plus (q :: p) (idents_ok_no_plus _ Ip)). rewrite Ip. reflexivity.
+  - apply andb_true_iff in Vp as [Ip _]. unfold parse_tail.
+    change ((c_dash :: q :: p) ++ c_plus :: n :: m) with (c_dash :: ((q :: p) ++ c_plus :: n :: m)).
+    change (beqb c_dash c_dash) with true. cbv iota.
+    rewrite (break_on_some c_plus (q :: p) (n :: m) (idents_ok_no_plus _ Ip)). rewrite Ip, Vm. reflexivity.
+Qed.
+
+Lemma tail_starts_nondigit v : starts_nondigit (pre_str v ++ meta_str v).
+Proof. unfold pre_str, meta_str. destruct (pre v), (meta v); simpl; auto. Qed.
+
+Lemma print_uint_head n : exists b t, print_uint n = b :: t /\ is_digit b = true.
+Proof.
+  pose proof (print_uint_nonempty n) as Hn. pose proof (print_uint_digits n) as Hd.
+  destruct (print_uint n) as [|b t]; [congruence|]. exists b, t. split; [reflexivity|].
+  unfold all_digits in Hd. simpl in Hd. apply andb_true_iff in Hd as [H _]. exact H.
+Qed.
+
+Theorem parse_print v : valid v = true -> parse (print v) = Some v.
+Proof.
+  intros V. pose proof (parse_tail_print v V) as HT. pose proof (tail_starts_nondigit v) as HS.
+  unfold valid in V. apply andb_true_iff in V as [V _]. apply andb_true_iff in V as [V Vp].
+  apply andb_true_iff in V as [V Vc]. apply andb_true_iff in V as [Va Vb].
+  apply N.ltb_lt in Va, Vb, Vc.
+  assert (P : print v = print_uint (major v) ++ c_dot :: print_uint (minor v) ++ c_dot :: print_uint (patch v) ++ (pre_str v ++ meta_str v)).
+  { unfold print, pre_str, meta_str. reflexivity. }
+  rewrite P. unfold parse.
+  assert (strip_v (print_uint (major v) ++ c_dot :: print_uint (minor v) ++ c_dot :: print_uint (patch v) ++ pre_str v ++ meta_str v)
+          = print_uint (major v) ++ c_dot :: print_uint (minor v) ++ c_dot :: print_uint (patch v) ++ pre_str v ++ meta_str v) as ->.
+  { destruct (print_uint_head (major v)) as (b & t & Eh & Hb). rewrite Eh. simpl.
+    destruct (beqb b c_v) eqn:E; [|reflexivity]. apply beqb_eq in E; subst b. vm_compute in Hb. discriminate. }
+  unfold parse_body.
+  rewrite (span_digits_app (print_uint (major v))) by (first [apply print_uint_digits | reflexivity]).
+  pose proof (print_uint_nonempty (major v)) as Hne. destruct (print_uint (major v)) as [|b' t'] eqn:Em; [congruence|]. rewrite <- Em.
+  rewrite (opt_dot_num_app (print_uint (minor v))) by (first [apply print_uint_digits | apply print_uint_nonempty | reflexivity]).
+  rewrite (opt_dot_num_app (print_uint (patch v))) by (first [apply print_uint_digits | apply print_uint_nonempty | exact HS]).
+  rewrite HT. simpl num_or_zero.
+  rewrite !parse_print_uint by assumption.
+  assert ((match pre v with [] => true | _ :: _ => pre_ok (pre v) end) = true) as ->.
+  { destruct (pre v); [reflexivity|]. apply andb_true_iff in Vp as [_ H]. exact H. }
+  destruct v; reflexivity.
+Qed.
+
+Local Open Scope nat_scope.
+(* tag names: "v" ++ String() has at least three dot-separated parts *)
+Lemma split_on_app_c_length c a r : length (split_on c (a ++ c :: r)) >= S (length (split_on c r)).
+Proof.
+  induction a as [|b a IH]; simpl.
+  - rewrite (proj2 (beqb_eq c c) eq_refl). simpl. lia.
+  - destruct (beqb b c); simpl; [lia|].
+    pose proof (split_on_nonnil c (a ++ c :: r)) as Hn.
+    destruct (split_on c (a ++ c :: r)); [contradiction|]. simpl in *. lia.
+Qed.
+Lemma split_on_length_pos c s : length (split_on c s) >= 1.
+Proof. pose proof (split_on_nonnil c s). destruct (split_on c s); [contradiction | simpl; lia]. Qed.
+
+Lemma print_three_parts v pfx : length (split_on c_dot (pfx ++ print v)) >= 3.
+Proof.
+  unfold print. rewrite app_assoc.
+  pose proof (split_on_app_c_length c_dot (pfx ++ print_uint (major v))
+     (print_uint (minor v) ++ c_dot :: print_uint (patch v) ++ (match pre v with [] => [] | p => c_dash :: p end) ++ (match meta v with [] => [] | m => c_plus :: m end))) as H1.
+  pose proof (split_on_app_c_length c_dot (print_uint (minor v))
+     (print_uint (patch v) ++ (match pre v with [] => [] | p => c_dash :: p end) ++ (match meta v with [] => [] | m => c_plus :: m end))) as H2.
+  pose proof (split_on_length_pos c_dot (print_uint (patch v) ++ (match pre v with [] => [] | p => c_dash :: p end) ++ (match meta v with [] => [] | m => c_plus :: m end))) as H3.
+  lia.
+Qed.
+
+(* the leading "v" is skipped by the parser *)
+Lemma parse_v s : (match s with b :: _ => beqb b c_v = false | [] => True end) -> parse (c_v :: s) = parse s.
+Proof.
+  intros H. unfold parse. f_equal. unfold strip_v at 1. change (beqb c_v c_v) with true. cbv iota.
+  destruct s as [|b t]; [reflexivity|]. simpl. rewrite H. reflexivity.
+Qed.
+
+Lemma parse_v_print v : valid v = true -> parse (c_v :: print v) = Some v.
+Proof.
+  intros V. rewrite parse_v; [apply parse_print; exact V|].
+  unfold print. destruct (print_uint_head (major v)) as (b & t & Eh & Hb). rewrite Eh. simpl.
+  destruct (beqb b c_v) eqn:E; [|reflexivity]. apply beqb_eq in E; subst b. vm_compute in Hb. discriminate.
+Qed.
